@@ -181,8 +181,10 @@ CHECKS = {
        "yields exactly the flags afterwards and never meets a cancel for an unarmed timer; after notify_closed and after a DISCONNECT is "
        "requested for sending no timer is armed; the PINGREQ interval is chosen by priority (override, Server Keep Alive, CONNECT keep-alive; "
        "0 disables); a server's receive timeout is 1.5 x the keep-alive of the CONNECT just received and the timer is never armed for 0. "
-       "The remaining functional clauses (re-arm after EVERY send while connected, expiry effects) are checked by the monitor on the "
-       "implementation's traces and by the correspondence, not yet as theorems.",
+       "Re-arm after EVERY send (C15_step_rearms, by a walk through every function of the model): in the events of every call, after the last "
+       "packet requested for sending the PINGREQ-send timer is reset with the interval of the returned state, unless the call requests a close, "
+       "the object is not a client or the interval is 0. The expiry effects and the server-side re-arm on every accepted packet are checked by "
+       "the monitor on the implementation's traces and by the correspondence.",
   ref="DESIGN.md §3 C15",
   note=CONN_NOTE + " The observer of the monitor is built only from events and reported expiries; the flag comparison uses the hook.",
   technique="Coq all-states proof that timer events track the flags (compositional over core.rs functions) + observer monitor + differential correspondence"),
